@@ -451,7 +451,7 @@ func checkFieldWriters(c *Ctx, p *Prog, rule, tname, field string, allowed ...st
 		}
 		for _, st := range storesTo(fn, "tcell."+tname, field) {
 			n++
-			if !ok[topFunc(fn).Name()] {
+			if !ok[topFunc(fn).Name()] && !calledOnlyFrom(p, topFunc(fn), ok, 2) {
 				bad += fmt.Sprintf("%s stores it at %s; ", fn.Name(), p.pos(st.Pos()))
 			}
 		}
@@ -851,4 +851,43 @@ func minOfParamAndField(phi *ssa.Phi, fn *ssa.Function, prm, owner, field string
 		}
 	}
 	return false
+}
+
+// calledOnlyFrom: fn is an unexported helper every use of which is a static call from one of the named
+// functions (or from another such helper, to the given depth): what it does, those functions do.
+func calledOnlyFrom(p *Prog, fn *ssa.Function, names map[string]bool, depth int) bool {
+	if fn == nil || depth < 0 || fn.Object() == nil || fn.Object().Exported() {
+		return false
+	}
+	uses := 0
+	for _, g := range p.modFns {
+		if g.Pkg != fn.Pkg {
+			continue
+		}
+		bad := false
+		eachInstr(g, func(in ssa.Instruction) {
+			// any mention that is not the callee position of a static call lets the helper escape
+			for _, op := range in.Operands(nil) {
+				if *op == ssa.Value(fn) {
+					cc := callCommon(in)
+					if cc == nil || cc.StaticCallee() != fn {
+						bad = true
+						return
+					}
+					if _, isGo := in.(*ssa.Go); isGo {
+						bad = true
+						return
+					}
+					uses++
+					if !names[topFunc(g).Name()] && !calledOnlyFrom(p, topFunc(g), names, depth-1) {
+						bad = true
+					}
+				}
+			}
+		})
+		if bad {
+			return false
+		}
+	}
+	return uses > 0
 }
